@@ -29,7 +29,16 @@ pub const CLAIMED: [&str; 8] = ["C02", "C03", "C08", "C09", "C11", "C12", "C13",
 /// Number of runs of a batch (fixed counts, never "run for N seconds").
 pub fn plan_runs(prop: &str, tier: Tier) -> u64 {
     let (main, exhaustive, deep) = plan_parts(prop, tier);
-    main + exhaustive + deep
+    main + exhaustive + deep + plan_big(prop, tier)
+}
+
+/// Runs on large inputs (more than 65 536 elements), appended after the other parts.
+pub fn plan_big(prop: &str, tier: Tier) -> u64 {
+    match (prop, tier) {
+        ("C02" | "C03", Tier::Quick) => 96,
+        ("C02" | "C03", Tier::Thorough) => 1500,
+        _ => 0,
+    }
 }
 
 /// (main runs, exhaustive-order runs, deepest-code runs)
@@ -56,6 +65,12 @@ pub fn gen(prop: &str, seed: u64, tier: Tier, r: u64) -> Case {
     match prop {
         "C02" | "C03" => {
             let (main, exhaustive, _deep) = plan_parts(prop, tier);
+            let big = plan_big(prop, tier);
+            // large inputs come first so that the chk profile (a prefix of the run indices) sees them too
+            if r < big {
+                return Case::Tree(trees::gen_big_case(prop, rs, tier));
+            }
+            let r = r - big;
             if r < main {
                 Case::Tree(trees::gen_case(prop, rs, tier))
             } else if r < main + exhaustive {
